@@ -38,9 +38,17 @@ class LaplaceLikelihood(_OneDimensionalLikelihood):
         self.raw_noise = torch.nn.Parameter(torch.zeros(*batch_shape, 1))
 
         if noise_prior is not None:
-            self.register_prior("noise_prior", noise_prior, lambda m: m.noise, lambda m, v: m._set_noise(v))
+            self.register_prior("noise_prior", noise_prior, self._noise_param, self._noise_closure)
 
         self.register_constraint("raw_noise", noise_constraint)
+
+    def _noise_param(self, m):
+        # Used by the noise_prior (a method rather than a lambda: the module stays picklable)
+        return m.noise
+
+    def _noise_closure(self, m, v):
+        # Used by the noise_prior
+        return m._set_noise(v)
 
     @property
     def noise(self) -> Tensor:
